@@ -85,7 +85,8 @@ def resolveValidateTarget (t : Types) (world : Nat) (graphImports graphExports :
         | some c2 => (resolveExports t graphExports c2 w.exports).1
       | (v, _) => v
 
-/-- `TargetValidationReport` (the three `BTree` collections, as lists in iteration order of the loops) -/
+/-- `TargetValidationReport` (the three `BTree` collections, as lists in iteration order of the loops;
+`mismatched_types` is keyed by name: a later mismatch of the same name replaces the earlier one) -/
 structure Report where
   importsNotInTarget : List Str := []
   missingExports : List Str := []
@@ -112,7 +113,7 @@ def binaryImports (t : Types) (worldImports : NameMap ItemKind) :
     | some expected =>
       match isSubtype (checkFuel t t) c t expected.promote t kind with
       | (.ok, c') => binaryImports t worldImports c' r rest
-      | (.err m, c') => binaryImports t worldImports c' { r with mismatched := r.mismatched ++ [(name, true, m)] } rest
+      | (.err m, c') => binaryImports t worldImports c' { r with mismatched := (r.mismatched.filter fun e => e.1 != name) ++ [(name, true, m)] } rest
       | (.panic _, _) => none
 
 /-- the export loop of `wac_types::validate_target` -/
@@ -125,7 +126,7 @@ def binaryExports (t : Types) (componentExports : NameMap ItemKind) :
     | some kind =>
       match isSubtype (checkFuel t t) c t kind t expected.promote with
       | (.ok, c') => binaryExports t componentExports c' r rest
-      | (.err m, c') => binaryExports t componentExports c' { r with mismatched := r.mismatched ++ [(name, false, m)] } rest
+      | (.err m, c') => binaryExports t componentExports c' { r with mismatched := (r.mismatched.filter fun e => e.1 != name) ++ [(name, false, m)] } rest
       | (.panic _, _) => none
 
 /-- the core of `wac_types::validate_target` on the component's import / export lists -/
